@@ -555,6 +555,28 @@ impl CompositionGraph {
         self.imports
             .retain(|_, n| self.graph[*n].package != Some(package));
 
+        // Arguments of surviving instantiations that were satisfied by a node
+        // of the package become unsatisfied again
+        for (target, argument) in self
+            .graph
+            .edge_indices()
+            .filter_map(|e| {
+                let (source, target) = self.graph.edge_endpoints(e)?;
+                match self.graph[e] {
+                    Edge::Argument(i)
+                        if self.graph[source].package == Some(package)
+                            && self.graph[target].package != Some(package) =>
+                    {
+                        Some((target, i))
+                    }
+                    _ => None,
+                }
+            })
+            .collect::<Vec<_>>()
+        {
+            self.graph[target].remove_satisfied_arg(argument);
+        }
+
         // Remove all nodes associated with the package
         self.graph
             .retain_nodes(|g, i| g[i].package != Some(package));
@@ -1026,6 +1048,19 @@ impl CompositionGraph {
             "removing node {index} from the graph",
             index = node.0.index()
         );
+        // Any argument satisfied by the node becomes unsatisfied again
+        for (target, argument) in self
+            .graph
+            .edges_directed(node.0, Direction::Outgoing)
+            .filter_map(|e| match e.weight() {
+                Edge::Argument(i) => Some((e.target(), *i)),
+                Edge::Alias(_) | Edge::Dependency => None,
+            })
+            .collect::<Vec<_>>()
+        {
+            self.graph[target].remove_satisfied_arg(argument);
+        }
+
         let index = node.0;
         let node = self.graph.remove_node(index).expect("invalid node id");
 
